@@ -3,6 +3,7 @@
    ESC <s>             -> ESC <html.escape> <markupsafe escape> <unescape(html.escape)> <unescape(markupsafe)> <no_markup both>
    SINK <0|1> <s>      -> SINK <0|1>
    AE <name>           -> AE <0|1>   (autoescape_selected)
+   DISP <DT|DI sexp>   -> DISP <filter_display_type of the node>   (translated filter)
    CFG                 -> CFG <9 flags of faithful_cfg> <docs_escaped> <lk_up> <url_links_service> <all sinks escaped> <all skeletons balanced> ; one  T <name> <autoescape 0|1>  per template name; END
    TAG <is_array> <elem_str> <full_name> <major> <minor> <root> <full_namespace> <has_parent>  -> TAG <tag_id> <url>
    UNIQ <s> <s> ...    -> UNIQ <r> <r> ...   (one UniqueNameGenerator state, in order)
@@ -124,12 +125,19 @@ let () =
           print_string (Printf.sprintf "ESC %s %s %s %s %s\n" (show a) (show b) (show (unescape a)) (show (unescape b))
                           (sbool (no_markup a && no_markup b)))
         | ["SINK"; b; s] -> print_string ("SINK " ^ sbool (sink_is_text (pbool b) (pstr s)) ^ "\n")
+        | "DISP" :: _ ->
+          let i = String.index line '(' in
+          let sx = parse_sexp (String.sub line i (String.length line - i)) in
+          let node = (match sx with
+              | L (A ("dpad" | "dfield" | "dconst") :: _) -> node_of_dinst (di sx)
+              | _ -> node_of_dtype (dt sx)) in
+          print_string ("DISP " ^ show (filter_display_type node) ^ "\n")
         | ["AE"; s] -> print_string ("AE " ^ sbool (autoescape_selected (pstr s)) ^ "\n")
         | ["CFG"] ->
           let c = faithful_cfg in
           print_string ("CFG " ^ String.concat " " (List.map sbool
             [c.ae_ti; c.de_ti; c.ae_ni; c.de_ni; c.ae_sb; c.de_sb; c.ae_tb; c.de_tb; c.ae_ns; cfg_docs_escaped c; c.lk_up; url_links_service;
-             all_dsdl_text_sinks_escaped; table_balanced html_skeletons]) ^ "\n");
+             all_dsdl_text_sinks_escaped; table_balanced html_skeletons; sinks_classified_safe]) ^ "\n");
           List.iter (fun n -> print_string (Printf.sprintf "T %s %s\n" (show n) (sbool (autoescape_selected n)))) html_template_names;
           print_string "END\n"
         | ["TAG"; ia; es; full; major; minor; root; fullns; haspar] ->
